@@ -38,7 +38,10 @@ pub fn dec(m: i64, scale: u32) -> Decimal {
 pub fn logged_div(k: usize, a: Decimal, b: Decimal) -> Decimal {
     #[cfg(kani)]
     {
-        let _ = (a, b);
+        // the k-th division really was a / b
+        let (la, lb) = rust_decimal::kani_logged_operands(k);
+        assert!(k < rust_decimal::kani_div_count(), "oracle reads a division that did not happen");
+        assert!(la == a && lb == b, "oracle reads the quotient of a different division");
         rust_decimal::kani_logged_quotient(k)
     }
     #[cfg(not(kani))]
